@@ -281,6 +281,9 @@ def inject(prog, kind, sel):
         for i, ev in enumerate(evs):
             if ev["e"] == "op" and ev["r"] in R and R[ev["r"]]["sub"] == "D" and ref.ref_sig(ev["op"])["outs"]:
                 cands.append((i, ev["r"]))
+            if ev["e"] in ("call", "load_func") and ev["r"] in R and R[ev["r"]]["sub"] == "D" and (ev["e"] == "load_func" or (ev["sig"]["o"] and not ev["sig"]["params"])):
+                # calls and function loads carry the callee's signature but are not functions
+                cands += [(i, ev["r"])] * 3
         c = pick(cands)
         if c is None:
             return None
@@ -593,6 +596,19 @@ def check(case) -> list[Fail]:
         if not entered:
             raise InvalidCase(f"harness exception {exc!r}")
         return [Fail("wrong-error", f"{kind}:{type(exc).__name__}", f"expected {[c.__name__ for c in expected(kind)]}, got {type(exc).__name__}: {exc}"[:300])]
+    # a refused set_outputs stays refused: the same call a second time must not be accepted (the refusal must
+    # not have recorded the rejected row)
+    if isinstance(at, int) and "res" in seen and kind in ("function-outputs-differ", "case-outputs-disagree") and at < len(p2["events"]):
+        ev2 = p2["events"][at]
+        b2 = seen["res"].builders.get(ev2.get("r"))
+        if ev2.get("e") == "close" and ev2.get("mode", "set_outputs") == "set_outputs" and b2 is not None:
+            try:
+                b2.set_outputs(*[seen["res"].wire(w) for w in ev2["outs"]])
+                return [Fail("silently-accepted", f"{kind}:accepted-at-the-second-attempt", f"injection at event {pos}: {type(exc).__name__} the first time, nothing the second time")]
+            except InvalidCase:
+                raise
+            except Exception:  # noqa: BLE001 - refused again
+                pass
     # every builder is a context manager: the error must also leave the `with` blocks of the builders that
     # enclose the offending call (an __exit__ returning a true value would swallow it)
     if isinstance(at, int) and "res" in seen and at < len(p2["events"]):
